@@ -93,6 +93,59 @@ def run(ctx):
         r4.ok("%s builds its error through serde::de::Error::{invalid_type, custom, ..}" % hp, serde.fn(hp))
 
 
+def _map_access_through_visitor(r, serde, lexpr, inl, shape):
+    """The same for association lists: deserialize_map on `((#t) . tail)` / `(sym . ())`; the object handed to
+    `Visitor::visit_map` is asked for a key, then a value, then a key again through its own MapAccess methods."""
+    de = serde.fn(ss.DE + "deserialize_map")
+    if de is None:
+        r.anchor_missing(ss.DE + "deserialize_map")
+        return
+    vidx = {v["name"]: v["idx"] for v in lexpr.adts["value::Value"]["variants"]}
+    cases = [("a pair entry, proper tail (Cons)", "Cons", "Cons", [("key", "Ok(Some)"), ("value", "Ok")]),
+             ("a pair entry, end of list (Null)", "Cons", "Null", [("key", "Ok(Some)"), ("value", "Ok"), ("key", "Ok(None)")]),
+             ("a pair entry, improper tail (atom)", "Cons", "Symbol", [("key", "Ok(Some)"), ("value", "Err")]),
+             ("a non-pair entry", "Symbol", "Null", [("key", "Err")])]
+    for lab, car, cdr, steps in cases:
+        cell = ss.SynCons(_cell(ss._mk(lexpr, car)), _cell(ss._mk(lexpr, cdr)))
+        val = Adt("lexpr::Value", vidx["Cons"], [cell], "Cons")
+        S = sim.Sim([serde, lexpr], hooks={"call": ss.de_hook}, inline=inl, max_depth=7, max_paths=3000)
+        accs = []
+        for p in S.run(de, args={1: _cell(Adt("value::de::Deserializer", 0, [_cell(val)]))}):
+            for e in p.events:
+                if e[0] == "visit" and e[1] == "visit_map" and len(e[2]) > 1:
+                    accs.append(S._deref(e[2][1], p))
+        accs = [a for a in accs if isinstance(a, Adt)]
+        if len(accs) != 1:
+            r.violation("serde_lexpr::" + ss.DE + "deserialize_map", "entry:%s" % lab,
+                        "deserialize_map on %s does not hand exactly one access object to visit_map (%d found)" % (lab, len(accs)), de.loc())
+            continue
+        acc = accs[0]
+        base = acc.adt.split("<")[0]
+        fns = {}
+        for m in ("next_key_seed", "next_value_seed"):
+            c = [g for g in serde.fns if g.impl_trait == "serde::de::MapAccess" and g.path.endswith("::" + m)
+                 and (g.self_ty or "").split("<")[0] == base and g.kind != "closure"]
+            fns[m] = c[0] if len(c) == 1 else None
+        if not all(fns.values()):
+            r.anchor_missing("MapAccess methods for %s" % acc.adt)
+            continue
+        cellobj = [acc]
+        bad = None
+        for what, want in steps:
+            nf = fns["next_key_seed" if what == "key" else "next_value_seed"]
+            S2 = sim.Sim([serde, lexpr], hooks={"call": ss.de_hook}, inline=inl, max_depth=7, max_paths=3000)
+            got = {shape(p) for p in S2.run(nf, args={1: sim.Ref(cellobj, 0, ())})}
+            if not (got - {"Err"} == ({want} - {"Err"}) and ("Err" in got or want != "Err")):
+                bad = (nf, what, want, got)
+                break
+        if bad is None:
+            r.ok("the map access object %s on %s -> %s" % (base.rsplit("::", 1)[-1], lab, [w for _x, w in steps]), fns["next_key_seed"])
+        else:
+            nf, what, want, got = bad
+            r.violation("serde_lexpr::" + nf.path, "entry:%s" % lab,
+                        "%s on %s yields %s, expected %s" % (nf.path, lab, sorted(got), want), nf.loc())
+
+
 def _seq_access_through_visitor(r, serde, lexpr, inl, shape):
     """deserialize_seq is evaluated on a pair whose cdr is a pair / the empty list / an atom; the object it hands to
     `Visitor::visit_seq` is then asked for elements through its own `SeqAccess::next_element_seed`: a first element
@@ -192,13 +245,24 @@ def access_objects(r, serde, lexpr):
         return "?"
 
     la = "<value::de::ListAccess<'de> as serde::de::SeqAccess<'de>>::next_element_seed"
+    ma_k = "<value::de::MapAccess<'de> as serde::de::MapAccess<'de>>::next_key_seed"
+    ma_v = "<value::de::MapAccess<'de> as serde::de::MapAccess<'de>>::next_value_seed"
+    def reviewed_cursor(adt):
+        a = serde.adts.get(adt)
+        fl = a["variants"][0]["fields"] if a else []
+        return len(fl) == 1 and fl[0]["ty"].startswith("std::option::Option<&") and "Cons" in fl[0]["ty"]
+
+    if serde.fn(la) is not None and serde.fn(ma_k) is not None and not (reviewed_cursor("value::de::ListAccess") and reviewed_cursor("value::de::MapAccess")):
+        # the access objects keep their place in the list differently (`rest: &Value` instead of `Option<&Cons>`): they
+        # are not built by hand here but taken from where the deserializer hands them to the visitor
+        _seq_access_through_visitor(r, serde, lexpr, inl, shape)
+        _map_access_through_visitor(r, serde, lexpr, inl, shape)
+        return
     if serde.fn(la) is None:
         # the sequence access object is not the reviewed `ListAccess` any more (merged behind a trait, made generic):
         # it is taken from where the deserializer hands it to the visitor, whatever type it has
         la = None
         _seq_access_through_visitor(r, serde, lexpr, inl, shape)
-    ma_k = "<value::de::MapAccess<'de> as serde::de::MapAccess<'de>>::next_key_seed"
-    ma_v = "<value::de::MapAccess<'de> as serde::de::MapAccess<'de>>::next_value_seed"
     for lab, cdr in cases:
         cell = ss.SynCons(_cell(ss._mk(lexpr, "Cons")), _cell(ss._mk(lexpr, cdr)))
         for fp, adt, want in ((la, "value::de::ListAccess", "Err" if cdr == "Symbol" else "Ok(Some)"),
